@@ -202,19 +202,14 @@ def run(ctx):  # noqa: C901, PLR0912, PLR0915
            'return type1.namespace == type2.namespace and type1.localname == type2.localname',
            'match_type compares namespace and local name', fi=mt)
     ms = repo.func(f'{W}.match_scope')
-    src = unparse(ms.node)
-    params = [a.arg for a in ms.node.args.args]
-    ok = params[:2] == ['my_scope', 'other_scope'] and \
-        'if len(src_path_elements) > len(target_path_elements):\n            return False' in src and \
-        'return all((target_path_elements[i] == elem for i, elem in enumerate(src_path_elements)))' in src and \
-        'src_path_elements = my_scope.path.split' in src and 'target_path_elements = other_scope.path.split' in src
-    ctx.ob('C14.R5', 'prefix comparison, requested first', ok,
+    ok5, why5, ok6, why6, wit = _match_scope_symbolic(ms)
+    ctx.ob('C14.R5', 'prefix comparison, requested first', ok5,
            'match_scope: the segments of the first (requested) operand must be a prefix of the segments of the second '
-           '(offered) operand', fi=ms)
+           '(offered) operand' if ok5 else why5, fi=ms, witness=wit)
 
     # ------------------------------------------------------------------ R6
-    ok, why, wit = _symmetric_normalisation(ms.node)
-    ctx.ob('C14.R6', 'symmetric normalisation', ok, why, fi=ms, witness=wit)
+    ctx.ob('C14.R6', 'symmetric normalisation', ok6, why6, fi=ms, witness=wit)
+
     g = cfg_of(ms)
     sc = [n for n in g.nodes if n.kind == 'return' and ('match_by == MatchBy.strcmp', True) in g.facts_at(n)]
     ok = len(sc) == 1 and unparse(sc[0].stmt.value) == 'my_scope == other_scope'
@@ -245,47 +240,110 @@ def _matches_filter_shape(fn):
                   'requested or forall requested scope exists offered scope under the requested rule)')
 
 
-def _symmetric_normalisation(fn):
-    sides = {'my_scope': 'A', 'other_scope': 'A', 'src_path_elements': 'P', 'target_path_elements': 'P'}
-    pairs = [('my_scope', 'other_scope'), ('src_path_elements', 'target_path_elements')]
-    uri_if = next((n for n in walk_no_nested(fn) if isinstance(n, ast.If) and 'MatchBy.uri' in unparse(n.test)), None)
-    if uri_if is None:
-        return False, 'rfc3986 branch not found', None
-    per_side = {'first': [], 'second': []}
-    for st in uri_if.body:
-        if isinstance(st, ast.Assign):
-            txt = unparse(st)
-            names = {n.id for n in ast.walk(st) if isinstance(n, ast.Name)}
-            for a, b in pairs:
-                if a in names and b not in names:
-                    per_side['first'].append(re.sub(r'\b(my_scope|src_path_elements)\b', lambda m: sides[m.group(1)], txt))
-                if b in names and a not in names:
-                    per_side['second'].append(re.sub(r'\b(other_scope|target_path_elements)\b', lambda m: sides[m.group(1)], txt))
-            for c in [x for x in ast.walk(st) if isinstance(x, (ast.ListComp, ast.GeneratorExp))]:
-                if any(gen.ifs for gen in c.generators):
-                    return False, (f'a normalisation step filters segments ({unparse(c)[:60]}): empty segments are '
-                                   f'dropped, so //, trailing slashes and the prefix rule are no longer respected'), None
-    if sorted(set(per_side['first'])) != sorted(set(per_side['second'])) or not per_side['first']:
-        return False, (f'the two scope operands are normalised differently: first {sorted(set(per_side["first"]))} vs '
-                       f'second {sorted(set(per_side["second"]))}'), per_side
-    steps = ' '.join(per_side['first'])
-    need = ['urlsplit(A)', "A.path.split('/')", 'unquote(elem)']
-    miss = [n for n in need if n not in steps]
-    if miss:
-        return False, f'normalisation steps missing: {miss}', per_side
-    # comparisons: both sides of every comparison apply the same function
-    for cmp_ in [n for n in ast.walk(uri_if.test if False else uri_if) if isinstance(n, ast.Compare) and len(n.ops) == 1]:
-        l, r = unparse(cmp_.left), unparse(cmp_.comparators[0])
-        if 'my_scope' in l and 'other_scope' in r:
-            if l.replace('my_scope', 'X') != r.replace('other_scope', 'X'):
-                return False, f'comparison {unparse(cmp_)} treats the operands differently', per_side
-            if ('scheme' in l or 'netloc' in l) and '.lower()' not in l:
-                return False, f'{unparse(cmp_)}: scheme / authority must be compared case-insensitively', per_side
-    cmps = ' '.join(unparse(n) for n in ast.walk(uri_if) if isinstance(n, ast.Compare))
-    if 'scheme.lower()' not in cmps or 'netloc.lower()' not in cmps:
-        return False, 'scheme and authority are not both compared (lower-cased)', per_side
-    return True, ('both operands go through urlsplit, lower-cased scheme and netloc, split on "/" and unquote per segment; '
-                  'no segment is dropped'), per_side
+def _alpha_parts(e):
+    """alpha-rename the comprehension variables separately in each operand of every comparison / call argument, so that equal
+    sub-expressions have equal text wherever they occur."""
+    from engine.cfg import alpha
+    from engine.errors import clone
+    e = clone(e)
+    for n in ast.walk(e):
+        if isinstance(n, ast.Compare):
+            n.left = alpha(n.left)
+            n.comparators = [alpha(c) for c in n.comparators]
+        elif isinstance(n, ast.Call) and not isinstance(n.func, ast.Attribute):
+            n.args = [alpha(a) for a in n.args]
+    return e
+
+
+def _match_scope_symbolic(ms):  # noqa: C901, PLR0911, PLR0912
+    """match_scope decided on its symbolic expansion: every local is written out in terms of the two operands ($0, $1), so the
+    names of temporaries, re-binding of the parameters and the split of the normalisation over several statements do not
+    matter.  Returns (R5 ok, R5 reason, R6 ok, R6 reason, witness)."""
+    from engine.cfg import _atoms, alpha
+
+    def txt(e):
+        return unparse(alpha(e))
+
+    def swap(e):
+        class R(ast.NodeTransformer):
+            def visit_Name(self, n):  # noqa: N802
+                return ast.copy_location(ast.Name(id={'$0': '$1', '$1': '$0'}.get(n.id, n.id), ctx=n.ctx), n)
+        from engine.errors import clone
+        return R().visit(clone(e))
+    g = cfg_of(ms)
+    finals = []
+    for n in g.nodes:
+        if n.kind == 'return' and n.stmt.value is not None:
+            v = g.symbolic(n, n.stmt.value)
+            if isinstance(v, ast.Call) and call_name(v) == 'all':
+                finals.append((n, v))
+    wit = {'returns': [f'{n.lineno}: {g.symbolic_text(n, n.stmt.value)[:160]}' for n in g.nodes
+                       if n.kind == 'return' and n.stmt.value is not None]}
+    if len(finals) != 1:
+        return False, f'expected one `return all(...)` prefix comparison, found {len(finals)}', False, 'see R5', wit
+    fn_, allc = finals[0]
+    gen = allc.args[0] if allc.args else None
+    if not isinstance(gen, (ast.GeneratorExp, ast.ListComp)) or len(gen.generators) != 1 or gen.generators[0].ifs:
+        return False, 'prefix comparison is not a plain all(<generator>)', False, 'see R5', wit
+    it = gen.generators[0].iter
+    tgt = gen.generators[0].target
+    if not (isinstance(it, ast.Call) and call_name(it) == 'enumerate' and isinstance(tgt, ast.Tuple) and len(tgt.elts) == 2
+            and isinstance(gen.elt, ast.Compare) and len(gen.elt.ops) == 1 and isinstance(gen.elt.ops[0], ast.Eq)):
+        return False, 'prefix comparison is not all(X[i] == e for i, e in enumerate(A))', False, 'see R5', wit
+    idx, el = (x.id for x in tgt.elts)
+    sides = [gen.elt.left, gen.elt.comparators[0]]
+    sub = next((x for x in sides if isinstance(x, ast.Subscript) and isinstance(x.slice, ast.Name) and x.slice.id == idx), None)
+    elem = next((x for x in sides if isinstance(x, ast.Name) and x.id == el), None)
+    if sub is None or elem is None:
+        return False, 'prefix comparison does not compare X[i] with the enumerated element', False, 'see R5', wit
+    for c in ast.walk(ms.node):
+        if isinstance(c, (ast.ListComp, ast.GeneratorExp)) and any(gen_.ifs for gen_ in c.generators):
+            return True, '', False, (f'a normalisation step filters segments ({unparse(c)[:60]}): empty segments are dropped, '
+                                     f'so //, trailing slashes and the prefix rule are no longer respected'), wit
+    a_txt, x_txt = txt(it.args[0]), txt(sub.value)
+
+    def norm(p):
+        return f"[unquote($c0) for $c0 in urlsplit({p}).path.split('/')]"
+    wit.update({'enumerated (must be the requested scope)': a_txt, 'indexed (must be the offered scope)': x_txt})
+    if a_txt != norm('$0') or x_txt != norm('$1'):
+        if a_txt == norm('$1') and x_txt == norm('$0'):
+            why = 'the OFFERED segments are required to be a prefix of the REQUESTED ones: operands are swapped'
+        else:
+            why = (f'the compared segment lists are {a_txt} and {x_txt}; required: the requested operand split on "/" after '
+                   f'urlsplit, each segment unquoted, enumerated; the offered operand normalised the same way, indexed')
+        return False, why, a_txt.replace('$0', 'X') == x_txt.replace('$1', 'X'), \
+            'the two operands are normalised differently' if a_txt.replace('$0', 'X') != x_txt.replace('$1', 'X') else \
+            'both operands are normalised identically', wit
+    # guards that dominate the prefix comparison
+    atoms = []
+    for bnode in g.nodes:
+        if bnode.kind == 'branch' and bnode.label in (True, False) and g.dominates(bnode, fn_):
+            _atoms(_alpha_parts(g.symbolic(bnode, bnode.test)), bnode.label, atoms)
+    wit['guards of the prefix comparison'] = atoms
+    have = set(atoms)
+    la, lb = f'len({norm("$0")})', f'len({norm("$1")})'
+    len_ok = bool({(f'{la} > {lb}', False), (f'{lb} < {la}', False), (f'{la} <= {lb}', True), (f'{lb} >= {la}', True)} & have)
+    if not len_ok:
+        return False, 'the prefix comparison is not guarded by "requested has no more segments than offered" (IndexError or ' \
+                      'a wrong match otherwise)', True, 'both operands are normalised identically', wit
+    for part in ('scheme', 'netloc'):
+        ok_part = any((f'urlsplit(${i}).{part}.{m}() == urlsplit(${1 - i}).{part}.{m}()', True) in have
+                      for m in ('lower', 'casefold') for i in (0, 1))
+        if not ok_part:
+            return True, '', False, f'{part} is not compared case-insensitively on both operands before the path comparison', wit
+    # every comparison between the operands treats them alike
+    for bnode in g.nodes:
+        if bnode.kind in ('test',) or (bnode.kind == 'branch' and bnode.label is True):
+            for c in ast.walk(g.symbolic(bnode, bnode.test)):
+                if isinstance(c, ast.Compare) and len(c.ops) == 1:
+                    l, r = c.left, c.comparators[0]
+                    names_l = {x.id for x in ast.walk(l) if isinstance(x, ast.Name)}
+                    names_r = {x.id for x in ast.walk(r) if isinstance(x, ast.Name)}
+                    if '$0' in names_l and '$1' in names_r and '$1' not in names_l and '$0' not in names_r:
+                        if txt(swap(l)) != txt(r):
+                            return True, '', False, f'comparison {unparse(c)[:120]} treats the operands differently', wit
+    return True, '', True, ('both operands go through urlsplit, lower-cased scheme and netloc, split on "/" and unquote per '
+                            'segment; no segment is dropped'), wit
 
 
 # ---------------------------------------------------------------------- self-test seeds
